@@ -40,6 +40,17 @@ Expand(s, reps) ==
                      [] OTHER -> {<<KindOf(t)>>} IN
        {x \o y : x \in head, y \in Expand(Tail(s), reps)}
 
+(* like Expand, but a repetition with lower bound 0 may also be written zero times (the rules *)
+(* never consider that; used only as the signature of a known finding)                      *)
+RECURSIVE ExpandZ(_)
+ExpandZ(s) ==
+  IF s = <<>> THEN {<<>>}
+  ELSE LET t == Head(s)
+           head == CASE t.k = "alt" -> UNION {ExpandZ(t.bs[x]) : x \in DOMAIN t.bs}
+                     [] t.k = "rep" -> ExpandZ(t.bd) \cup (IF t.lo = 0 THEN {<<>>} ELSE {})
+                     [] OTHER -> {<<KindOf(t)>>} IN
+       {x \o y : x \in head, y \in ExpandZ(Tail(s))}
+
 Adjacent(seqs, kind) == \E x \in seqs : \E i \in 1..(Len(x) - 1) : x[i] = kind /\ x[i + 1] = kind
 
 (* all token sequences nested anywhere in T, with how they are nested *)
